@@ -34,6 +34,12 @@ MODEL_FIELDS = [
 WIRE = [f["name"] for f in sorted(MODEL_FIELDS, key=lambda f: f["field_id"])]
 
 
+def dtype(n) -> str:
+    """desugared type of an AST node, whitespace-free: aliases and the template a wrapper name stands for do not matter"""
+    t = n.get("type", {}) if n is not None else {}
+    return (t.get("desugaredQualType") or t.get("qualType") or "").replace(" ", "").replace("fcp::", "")
+
+
 def tnorm(t: str) -> str:
     """wrapper type up to spelling of the carrier: Unsigned<unsigned char, 5> == Unsigned<std::uint8_t, 5> -> 'Unsigned:5'"""
     import re
@@ -64,6 +70,18 @@ class StructInstance:
         t = jb.template(path)
         model = Model({"struct.fields": MODEL_FIELDS}, calls={"to_wrapper_cpp_type": "cpp"},
                       values={"to_highest_power_of_two(enum.get_packed_size())": "8", "enum.get_packed_size()": "3", "enumeration.value": "1"})
+        def hook(node):
+            # `for f in G(struct)`: G a Python template global returning the struct's fields in an order the checker can read
+            from .C15 import global_fields_order
+            r = global_fields_order(eng, jb, node)
+            if r is None or r[0] != "struct":
+                return None
+            if r[1] == "sorted":
+                return sorted(MODEL_FIELDS, key=lambda f_: f_["field_id"])
+            if r[1] == "declared":
+                return list(MODEL_FIELDS)
+            return None
+        model.iter_hook = hook
         self.text = instantiate(t, policy={"namespace is not none": False, "impl._is_method_input": False}, model=model)
         hdir = eng.path("plugins", "fcp_cpp", "fcp_cpp")
         import re as _re
@@ -82,6 +100,11 @@ class StructInstance:
             raise Undecided("struct class not found in the model instance (%s)" % (self.errors[:1] or "no clang error"))
         self.cls = cls[0]
         self.fields = [c.get("name") for c in self.cls.inner if c.kind == "FieldDecl"]
+        # the wrapper type of each model field as the instance itself declares it (`using FaType = ...`), desugared
+        self.type_of = {}
+        for c in self.cls.inner:
+            if c.kind == "FieldDecl" and c.get("name", "").endswith("_"):
+                self.type_of[c["name"][:-1]] = dtype(c)
         self.by_id: Dict[str, CNode] = {}
         for n in walk(self.cls):
             if "id" in n:
@@ -130,7 +153,7 @@ class StructInstance:
                 obj = callee.inner[0] if callee is not None and callee.kind == "MemberExpr" and callee.inner else None
                 out.append(("member", c, self.member_of(obj)))
             elif c.kind == "CallExpr" and any(self.uses(a, buf) for a in c.inner[1:]):
-                out.append(("static", c, tnorm(c.qtype)))
+                out.append(("static", c, dtype(c)))
         return out
 
     def unsequenced(self, m: CNode) -> List[CNode]:
@@ -221,7 +244,7 @@ def run_struct_rules(eng, rep, rule_order: Optional[str], rule_dest: Optional[st
         for m in decs:
             calls = si.buffer_calls(m)
             tys = [c[2] for c in calls if c[0] == "static"]
-            by_type = {v: k for k, v in TYPE_OF.items()}
+            by_type = {v: k for k, v in si.type_of.items()}
             seq = [by_type.get(t_) for t_ in tys]
             site = "Decode(Buffer&): wrapper types read in the order %s" % [s_ or "?" for s_ in seq]
             if None in seq or len(seq) != len(WIRE):
@@ -252,7 +275,7 @@ def run_struct_rules(eng, rep, rule_order: Optional[str], rule_dest: Optional[st
                 if st.kind == "VarDecl" and st.inner:
                     call = next((y for y in walk(st) if y.kind == "CallExpr"), None)
                     if call is not None and si.buffer_param(m) and si.uses(call, si.buffer_param(m)):
-                        var_type[st.get("name")] = tnorm(call.qtype)
+                        var_type[st.get("name")] = dtype(call)
             ret = next((y for y in walk(b) if y.kind == "ReturnStmt"), None)
             cons = next((y for y in walk(ret) if y.kind in ("CXXConstructExpr", "CXXTemporaryObjectExpr") and len(y.inner) == len(si.fields)), None) if ret is not None else None
             if cons is None or not cmap:
@@ -267,7 +290,7 @@ def run_struct_rules(eng, rep, rule_order: Optional[str], rule_dest: Optional[st
                     ok = None
                     break
                 detail.append("%s -> %s" % (nm, mem))
-                if TYPE_OF.get(mem[:-1]) != var_type[nm] or nm != mem[:-1]:
+                if si.type_of.get(mem[:-1]) != var_type[nm] or nm != mem[:-1]:
                     ok = False
             site = "Decode: %s" % ", ".join(detail)
             if ok is None:
@@ -284,10 +307,10 @@ def run_struct_rules(eng, rep, rule_order: Optional[str], rule_dest: Optional[st
             ok, detail = True, []
             for i, a in enumerate(cons.inner):
                 key = next((y.get("value", "").strip('"') for y in walk(a) if y.kind == "StringLiteral"), None)
-                ty = next((tnorm(y.qtype) for y in walk(a) if y.kind == "CallExpr"), None)
+                ty = next((dtype(y) for y in walk(a) if y.kind == "CallExpr"), None)
                 mem = cmap.get(i)
                 detail.append('j["%s"] as %s -> %s' % (key, ty, mem))
-                if mem is None or key != mem[:-1] or TYPE_OF.get(mem[:-1]) != ty:
+                if mem is None or key != mem[:-1] or si.type_of.get(mem[:-1]) != ty:
                     ok = False
             rep.check(ok, rule_dest, F, "struct block [model instance]", "FromJson: %s" % "; ".join(detail), "each member is built from its own key with its own wrapper type",
                       "FromJson builds a member from another field's key or type (%s)" % "; ".join(detail))
